@@ -271,6 +271,7 @@ class RefExecutor:
         self.validate(sus, asg)
         results = []
         self.same_tick_dependency = False
+        self.completed_this_tick = set()
         self.new_keys = []
         self.pool_kill_info = []
         for pid, pool in enumerate(self.pools):
@@ -351,6 +352,10 @@ class RefExecutor:
                 op = rc.ops[t.op]
                 if t.first and self.opstate[op] != R:
                     missing = [par for par in op.parents if self.opstate.get(par) != C]
+                    if not missing and observed_raised and any(par in self.completed_this_tick for par in op.parents):
+                        # the parent completed earlier in THIS tick only because of the order in which this model
+                        # advances pools/containers; an implementation advancing them in another order refuses
+                        raise Reject("dependency", pid, "parent completes in the same tick (order-dependent, either way admissible)")
                     if missing:
                         if all(par in completing_now for par in missing):
                             self.same_tick_dependency = True
@@ -372,6 +377,7 @@ class RefExecutor:
                 rc.pos += 1
                 if t.done:
                     self.opstate[op] = C
+                    self.completed_this_tick.add(op)
                     rc.cur += 1
                     if rc.cur == len(rc.ops):
                         rc.done_now = True
